@@ -1,5 +1,6 @@
 """Reader for parsing a DiffX file into DOM objects."""
 
+from pydiffx.errors import DiffXParseError, DiffXUnknownOptionError
 from pydiffx.reader import DiffXReader
 from pydiffx.sections import Section
 
@@ -103,7 +104,15 @@ class DiffXDOMReader(object):
             section_info (dict):
                 Information on the section from the streaming reader.
         """
-        section.meta = section_info['metadata']
+        metadata = section_info['metadata']
+
+        if not isinstance(metadata, dict):
+            raise DiffXParseError(
+                'Expected the metadata to be a JSON object, not %s'
+                % type(metadata).__name__,
+                linenum=section_info['line'])
+
+        section.meta = metadata
         self._set_content_options(section.meta_section,
                                   section_info['options'])
 
@@ -122,7 +131,15 @@ class DiffXDOMReader(object):
             section_info (dict):
                 Information on the section from the streaming reader.
         """
-        section.preamble = section_info['text']
+        text = section_info['text']
+
+        if not isinstance(text, str):
+            raise DiffXParseError(
+                'The preamble cannot be decoded, since no encoding was '
+                'specified for it or any of its parent sections',
+                linenum=section_info['line'])
+
+        section.preamble = text
         self._set_content_options(section.preamble_section,
                                   section_info['options'])
 
@@ -182,7 +199,8 @@ class DiffXDOMReader(object):
             pydiffx.dom.objects.DiffXChangeSection:
             The new change section.
         """
-        return diffx.add_change(**section_info['options'])
+        return diffx.add_change(**self._get_container_options(
+            'change', section_info))
 
     def _read_file_section(self, diffx, section, section_info):
         """Read a file section.
@@ -203,7 +221,41 @@ class DiffXDOMReader(object):
             pydiffx.dom.objects.DiffXFileSection:
             The new file section.
         """
-        return diffx.changes[-1].add_file(**section_info['options'])
+        return diffx.changes[-1].add_file(**self._get_container_options(
+            'file', section_info))
+
+    def _get_container_options(self, section_name, section_info):
+        """Return options for a new container section.
+
+        The options from the header are validated to be options that the
+        section understands, and not other attributes (such as content or
+        internal state) of the section.
+
+        Args:
+            section_name (unicode):
+                The name of the section.
+
+            section_info (dict):
+                Information on the section from the streaming reader.
+
+        Returns:
+            dict:
+            The options for the section.
+
+        Raises:
+            pydiffx.errors.DiffXUnknownOptionError:
+                An option in the header is not known for this section.
+        """
+        options = section_info['options']
+
+        for name in options:
+            if name != 'encoding':
+                raise DiffXUnknownOptionError(
+                    '"%s" is not a valid option for the %s section on '
+                    'line %d'
+                    % (name, section_name, section_info['line'] + 1))
+
+        return options
 
     def _set_content_options(self, section, options):
         options.pop('length', None)
